@@ -214,6 +214,18 @@ func runFixtures(vdir string) (map[string]string, error) {
 		case strings.HasPrefix(rest, "LoopBuf"):
 			engine = "shared loop buffer"
 			got = len(sharedLoopBuffers(f)) > 0
+		case strings.HasPrefix(rest, "Loop") && !strings.HasPrefix(rest, "LoopBuf"):
+			engine = "loop bounds"
+			for _, l := range loopsOf(f) {
+				l := l
+				classifyLoop(&l)
+				if l.class == "" {
+					got = true
+				}
+			}
+		case strings.HasPrefix(rest, "AcceptCarrier"):
+			engine = "accept to handler"
+			got = !helperOnlyInspects(f, 0, 0)
 		case strings.HasPrefix(rest, "Park"):
 			engine = "parking operations"
 			eachInstr(f, func(in ssa.Instruction) {
